@@ -4,6 +4,7 @@
    S l c          pos_spec (reference)            -> offset
    U i            utf8_to_position                -> "l c"
    C i            utf8_to_char_index              -> index
+   K s e          CharSpan::from (both ends)      -> start end
    R s e          utf8_range_to_position + client selection (model of the client)
                                                   -> "l1 c1 l2 c2 | units.." *)
 open Conv
@@ -27,6 +28,10 @@ let run () =
       | [ "C"; i ] ->
           let r = Position.utf8_to_char_index !text (n_of_int (int_of_string i)) in
           print_endline (string_of_int (int_of_n r))
+      | [ "K"; s; e ] ->
+          let a = Position.utf8_to_char_index !text (n_of_int (int_of_string s)) in
+          let b = Position.utf8_to_char_index !text (n_of_int (int_of_string e)) in
+          Printf.printf "%d %d\n" (int_of_n a) (int_of_n b)
       | [ "R"; s; e ] ->
           let ((l1, c1), (l2, c2)) =
             Position.utf8_range_to_position !text (n_of_int (int_of_string s)) (n_of_int (int_of_string e))
